@@ -891,7 +891,7 @@ fn region_body(mem: &vm_memory::GuestMemoryMmap<()>, lay: &Layout, t: &mut Tape,
 pub fn property() -> Property {
     Property {
         id: "C01",
-        rule: "a case = a parent (slice of 0..256 bytes at any alignment inside canaries; slice flush against a PROT_NONE page at either end; mapped region / guest memory) + a chain of up to 8 derivations (subslice, offset, split_at, get_slice, as_volatile_slice, ArrayRef::from, get_ref/get_array_ref/ref_at -> to_slice, aligned_as_ref/mut, get_atomic_ref, from_slice/from_mut_slice) with arguments from {in range, 0, len-1, len, len+1, 2len, 2^32+-k, isize::MAX+-k, usize::MAX-k, pointer-overflowing, uniform}; each successful derivation is followed by a write+read through the new accessor and a comparison of everything outside it; non-trivial = chain depth >= 2, an argument within 1 of a boundary, or an overflowing argument; distinct = decoded (parent, chain)",
+        rule: "a case = a parent (slice of 0..256 bytes at any alignment inside canaries; slice flush against a PROT_NONE page at either end; mapped region / guest memory) + a chain of up to 8 derivations (subslice, offset, split_at, get_slice, as_volatile_slice, ArrayRef::from, get_ref/get_array_ref/ref_at -> to_slice, aligned_as_ref/mut, get_atomic_ref, from_slice/from_mut_slice) with arguments from {in range, 0, len-1, len, len+1, 2len, 2^32+-k, isize::MAX+-k, usize::MAX-k, pointer-overflowing, uniform}; each successful derivation is followed by a write+read through the new accessor and a comparison of everything outside it; xen build: the same roots over emulated foreign / advance-mapped grant / Unix regions, and chains over regions without a stable host pointer (grant regions mapped on demand) whose extents are tracked logically and judged by the device contents (bytes seen through the accessor's guard = device bytes of exactly that range; a write changes exactly that range); non-trivial = chain depth >= 2, an argument within 1 of a boundary, or an overflowing argument; distinct = decoded (parent, chain)",
         assumptions: &["fitting requests are not required to succeed here (that is C04's business): only 'does not fit => error' and containment are asserted", "out-of-parent reads are detected by PROT_NONE guard pages (worker crash, attributed by the driver) and by AddressSanitizer in the fuzz tier"],
         subchecks: vec![
             SubCheck { name: "framed", builds: &[Build::Std, Build::Plain], kind: Kind::Random { quick: 60_000, thorough: 3_000_000, max_words: 64 }, run: run_framed },
